@@ -41,6 +41,11 @@ func TestDrv_C20(t *testing.T) {
 					pm := prom.NewMetrics()
 					reg := prometheus.NewRegistry()
 					must(pm.Register(reg))
+					if cases%3 == 1 { // a registration that the registry refuses (the same metrics again, another instance) leaves the first one serving
+						if pm.Register(reg) == nil || prom.NewMetrics().Register(reg) == nil {
+							tr.Emit("Panic", KV{"what": "Register", "value": "a second registration of the same metric names was accepted"})
+						}
+					}
 					tr.Emit("Reset", KV{"n": n, "concurrent": concurrent})
 					rs := make([]vegeta.Result, n)
 					for i := range rs {
